@@ -16,6 +16,7 @@ def auto_models(j, skip=()):
     text, used = '', []
     svinc = False
     flinc = False
+    lessinc = False
     sqinc = False
     for s in j['std_stubs']:
         q, n = s['qualified'], s['name']
@@ -27,11 +28,16 @@ def auto_models(j, skip=()):
             a, b = ps[1][1], ps[2][1]
             if byref:     # operator()(T&&, U&&): operands arrive as references (lowered to pointers to the operands)
                 if ps[1][0].count('*') >= 2:
-                    body = 'return (unsigned long)*%s < (unsigned long)*%s;' % (a, b)
+                    body = 'return IPR_PTR_LESS(*%s, *%s);' % (a, b)
                 else:
                     body = 'return *%s < *%s;' % (a, b)
             else:         # libstdc++'s pointer overload operator()(T*, U*): total order on addresses
-                body = 'return (unsigned long)%s < (unsigned long)%s;' % (a, b)
+                body = 'return IPR_PTR_LESS(%s, %s);' % (a, b)
+            if not lessinc:
+                lessinc = True
+                text += ('/* address order: within one object by offset (cbmc folds this to a constant for constant addresses, which keeps look-ups in the\n'
+                         '   red-black tables deterministic when the harness fixes the address order), across objects by address value */\n'
+                         '#ifndef IPR_PTR_LESS\n#define IPR_PTR_LESS(a, b) (__CPROVER_same_object((void*)(a), (void*)(b)) ? __CPROVER_POINTER_OFFSET((void*)(a)) < __CPROVER_POINTER_OFFSET((void*)(b)) : (unsigned long)(a) < (unsigned long)(b))\n#endif\n')
             text += '/* assumed: std::less<> orders scalars by value and pointers by address (as libstdc++ does) */\n%s %s(%s) { %s }\n' % (s['ret'], n, s['params'], body)
             used.append('std::less<> = value / address order')
         svm = None
@@ -91,6 +97,17 @@ def auto_models(j, skip=()):
             sqm = 'int sl = sq_slot(%s); __CPROVER_assert(%s <= SEQ_CAP, "sequence model: resize within the harness bound"); for (int k = 0; k < SEQ_CAP; k++) if (k >= sq_size[sl]) sq_elem_at(sl, k) = 0; sq_size[sl] = %s;' % (ps[0][1], ps[1][1], ps[1][1])
         elif re.match(r'std::deque<.*>::(operator\[\]|at)$', q) and len(ps) == 2:
             sqm = 'int sl = sq_find(%s); __CPROVER_assert(sl >= 0 && %s < sq_size[sl], "sequence model: deque element access within bounds"); return (%s)sq_elem_at(sl, %s);' % (ps[0][1], ps[1][1], s['ret'], ps[1][1])
+        dq = lambda p: ('((void**)%s)' % p[1]) if p[0].rstrip().endswith('*') else ('((void**)&%s)' % p[1])
+        if re.match(r'std::deque<.*>::c?begin$', q) and len(ps) == 1:
+            sqm = '%s r; __builtin_memset(&r, 0, sizeof r); ((void**)&r)[0] = %s; ((unsigned long*)&r)[1] = 0; return r;' % (s['ret'], ps[0][1])
+        elif re.match(r'std::deque<.*>::c?end$', q) and len(ps) == 1:
+            sqm = '%s r; __builtin_memset(&r, 0, sizeof r); ((void**)&r)[0] = %s; ((unsigned long*)&r)[1] = sq_length(%s); return r;' % (s['ret'], ps[0][1], ps[0][1])
+        elif q in ('std::operator==', 'std::operator!=') and len(ps) == 2 and '_Deque_iterator' in ps[0][0] and '_Deque_iterator' in ps[1][0]:
+            sqm = 'return %s(%s[0] == %s[0] && %s[1] == %s[1]);' % ('!' if q.endswith('!=') else '', dq(ps[0]), dq(ps[1]), dq(ps[0]), dq(ps[1]))
+        elif re.match(r'std::_Deque_iterator<.*>::operator\+\+$', q) and len(ps) == 1:
+            sqm = '((unsigned long*)%s)[1]++; return (%s)%s;' % (ps[0][1], s['ret'], ps[0][1])
+        elif re.match(r'std::_Deque_iterator<.*>::operator\*$', q) and len(ps) == 1:
+            sqm = 'int sl = sq_find(((void**)%s)[0]); unsigned long i = ((unsigned long*)%s)[1]; __CPROVER_assert(sl >= 0 && i < sq_size[sl], "sequence model: dereference of a valid deque iterator"); return (%s)sq_elem_at(sl, i);' % (ps[0][1], ps[0][1], s['ret'])
         if sqm:
             if not sqinc:
                 text += '#include "seqmodel.h"\n'; sqinc = True
